@@ -4,7 +4,7 @@ same sources behind a real responder on the wire."""
 import json
 
 from harness.core import Prop
-from harness import detloop, sources, simnet, engine
+from harness import detloop, sources, simnet, engine, clientrun
 
 
 class C06(Prop):
@@ -13,13 +13,16 @@ class C06(Prop):
     technique = 'Lean 4 proof (credit-accounting invariant over all interleavings of credit arrival, production and delivery; measure-based delivery) + differential correspondence per source'
     level_text = ('c06_never_exceeds, c06_order, c06_stalls_without_credit (every interleaving of request/produce/feed events), c06_delivers_all / c06_single_credit_delivers and '
                   'c06_credit_forwarded_exact (engine) are kernel-checked on a model of the credit queue + producer/feeder tasks shared by the four library sources; the model is compared with '
-                  'each real source at quiescence points, and every delivery is judged against the credit received at that instant; the sources are also run behind a real responder.')
+                  'each real source at quiescence points, and every delivery is judged against the credit received at that instant; the sources are also run behind a real responder. '
+                  'c06_collector_requests_exactly_limit, c06_collector_credit_window (1 <= outstanding credit <= limit rate while elements arrive) and c06_collector_cancels_at_count are kernel-checked on a model of CollectorSubscriber '
+                  '(the requester behind AwaitableRSocket), compared with the real class directly and through AwaitableRSocket.request_stream / request_channel on a real client (REQUEST_N / CANCEL frames on the wire).')
     level_note = ('Trusted: Lean kernel + standard axioms; the tick-level interleaving of the feeder tasks inside asyncio is abstracted to arbitrary produce/feed order (the theorems cover '
                   'all orders); Rx / ReactiveX operator internals.')
     design_ref = '§5 C06'
     rule = ('source kind x element count 0..8 x last-element-flagged x failing source x schedules of request(n) (n in 1,2,3,7,2^31-1), partial runs of 1..3 loop iterations, quiescence points '
             'and cancel; plus each source behind a RequestStreamResponder / channel with REQUEST_N frames arriving between iterations; non-trivial = credit arrives in at least two '
-            'instalments or is exhausted before the end; distinct = distinct case')
+            'instalments or is exhausted before the end; distinct = distinct case; collector: limit rate 1..5 / 2^31-1 x limit count none/1..12 x 0..9 elements x end (flagged element, COMPLETE, ERROR, none) x '
+            'bursts of 1..4 frames per loop iteration, stream and channel')
     assumptions = []
 
     def cases(self, rng, tier):
@@ -42,12 +45,126 @@ class C06(Prop):
         for _ in range(n // 3):
             out.append({'mode': 'wire', 'kind': rng.choice(sources.KINDS), 'count': rng.choice([0, 1, 3, 6]), 'flagged': False, 'failing': False,
                         'channel': rng.random() < 0.4, 'n0': rng.choice([1, 2, 3, 2 ** 31 - 1]), 'more': [rng.choice([1, 2, 5]) for _ in range(rng.randint(0, 3))]})
+        # the library's own awaitable requester (CollectorSubscriber behind AwaitableRSocket): the credit it grants
+        for _ in range(n // 3):
+            k = rng.choice([0, 1, 2, 3, 4, 6, 9])
+            end = rng.choice(['flag', 'complete', 'error', 'none'] if k else ['complete', 'error', 'none'])
+            if rng.random() < 0.5:
+                out.append({'mode': 'collector', 'kind': 'awaitable', 'via': 'wire', 'L': rng.choice([1, 2, 3, 5, 2 ** 31 - 1]), 'C': None, 'k': k, 'end': end,
+                            'channel': rng.random() < 0.4, 'burst': rng.choice([1, 1, 2, 4])})
+            else:
+                out.append({'mode': 'collector', 'kind': 'awaitable', 'via': 'direct', 'L': rng.choice([1, 2, 3, 5, 2 ** 31 - 1]), 'C': rng.choice([None, None, 1, 2, 3, 5, 12]),
+                            'k': k, 'end': end, 'extra': rng.choice([0, 0, 1, 3])})
         return out
 
     def run_impl(self, case):
         if case['mode'] == 'direct':
             return detloop.run(sources.drive, case)
+        if case['mode'] == 'collector':
+            return detloop.run(self._collector_wire if case['via'] == 'wire' else self._collector_direct, case)
         return detloop.run(self._wire, case)
+
+    @staticmethod
+    def _collector_events(case):
+        ev = []
+        for i in range(case['k']):
+            ev.append('n1' if case['end'] == 'flag' and i == case['k'] - 1 else 'n0')
+        if case['end'] == 'complete':
+            ev.append('c')
+        elif case['end'] == 'error':
+            ev.append('e')
+        # a source that keeps emitting after the terminal event (direct mode only: the requester drops such frames on the wire)
+        ev += ['n0'] * case.get('extra', 0) if case['end'] in ('complete', 'error', 'flag') else []
+        return ev
+
+    async def _collector_direct(self, loop, case):
+        import asyncio
+        from rsocket.awaitable.collector_subscriber import CollectorSubscriber
+        from rsocket.payload import Payload
+        calls = []
+
+        class Sub:
+            def request(self, n): calls.append('r%d' % n)
+            def cancel(self): calls.append('x')
+        kw = {} if case['C'] is None else {'limit_count': case['C']}
+        col = CollectorSubscriber(limit_rate=case['L'], **kw)
+        col.on_subscribe(Sub())
+        task = asyncio.ensure_future(col.run())
+        after = []
+        for i, e in enumerate(self._collector_events(case)):
+            if e[0] == 'n':
+                col.on_next(Payload(b'%d' % i), e == 'n1')
+            elif e == 'c':
+                col.on_complete()
+            else:
+                col.on_error(RuntimeError('source failed'))
+            await loop.settle()
+            after.append(len(calls))
+        res = None
+        if task.done():
+            res = 'raised' if task.exception() is not None else len(task.result())
+        else:
+            task.cancel()
+        return {'calls': calls, 'after': after, 'done': col.is_done.is_set(), 'failed': col.error is not None, 'total': len(col.values), 'result': res, 'initial': None}
+
+    async def _collector_wire(self, loop, case):
+        import asyncio
+        from rsocket.awaitable.awaitable_rsocket import AwaitableRSocket
+        from rsocket.payload import Payload
+        from rsocket import frame as F
+        R = clientrun.ClientRun(loop, n_transports=1, ka_ms=10_000_000, life_ms=100_000_000)
+        c = R.build()
+        await c.connect()
+        await loop.settle()
+        t = R.transports[0]
+        ars = AwaitableRSocket(c)
+        if case['channel']:
+            task = asyncio.ensure_future(ars.request_channel(Payload(b'q'), limit_rate=case['L']))
+        else:
+            task = asyncio.ensure_future(ars.request_stream(Payload(b'q'), limit_rate=case['L']))
+        await loop.settle()
+        req = [e[2] for e in t.sent if isinstance(e[2], (F.RequestStreamFrame, F.RequestChannelFrame))]
+        if not req:
+            return {'calls': [], 'after': [], 'done': False, 'failed': False, 'total': 0, 'result': 'no-request-frame', 'initial': None}
+        sid, initial = req[0].stream_id, req[0].initial_request_n
+        base = len(t.sent)
+        after = []
+
+        def calls():
+            out = []
+            for e in t.sent[base:]:
+                if isinstance(e[2], F.RequestNFrame) and e[2].stream_id == sid:
+                    out.append('r%d' % e[2].request_n)
+                elif isinstance(e[2], F.CancelFrame) and e[2].stream_id == sid:
+                    out.append('x')
+            return out
+        evs = self._collector_events(case)
+        pending = 0
+        for i, e in enumerate(evs):
+            if e[0] == 'n':
+                f = F.PayloadFrame()
+                f.stream_id, f.data, f.flags_next, f.flags_complete = sid, b'%d' % i, True, e == 'n1'
+            elif e == 'c':
+                f = F.PayloadFrame()
+                f.stream_id, f.flags_complete = sid, True
+            else:
+                f = F.ErrorFrame()
+                f.stream_id, f.error_code, f.data = sid, 0x201, b'source failed'
+            t.deliver(f.serialize())
+            pending += 1
+            if pending >= case['burst'] or i == len(evs) - 1:
+                await loop.settle()
+                after += [len(calls())] * pending
+                pending = 0
+        res = None
+        if task.done():
+            res = 'raised' if task.exception() is not None else len(task.result())
+        else:
+            task.cancel()
+        out = {'calls': calls(), 'after': after, 'done': task.done(), 'failed': res == 'raised', 'total': case['k'] if res in (None, 'raised') else res, 'result': res,
+               'initial': initial}
+        await c.close()
+        return out
 
     async def _wire(self, loop, case):
         from rsocket.rsocket_server import RSocketServer
@@ -82,6 +199,8 @@ class C06(Prop):
         return {'trace': trace, 'completes': completes}
 
     def model_lines(self, case, obs):
+        if case['mode'] == 'collector':
+            return ['collect %d %s %s' % (case['L'], '-' if case['C'] is None else case['C'], ' '.join(self._collector_events(case)))]
         if case['mode'] != 'direct':
             ev = ['r%d' % case['n0'], 'q'] + [x for n in case['more'] for x in ('r%d' % n, 'q')]
             return ['credit flagged=0 failing=0 count=%d %s' % (case['count'], ' '.join(ev))]
@@ -94,6 +213,19 @@ class C06(Prop):
         return ['credit flagged=%d failing=%d count=%d %s' % (case['flagged'], case['failing'], case['count'], ' '.join(ev))]
 
     def compare(self, case, obs, answers):
+        if case['mode'] == 'collector':
+            outs, _, fin = answers[0].partition('|')
+            model_calls = outs.split()
+            fields = dict(p.split('=') for p in fin.split())
+            if obs['calls'] != model_calls:
+                return 'collector requests / cancel: impl %s / model %s' % (obs['calls'], model_calls)
+            impl_fin = {'done': '1' if obs['done'] else '0', 'failed': '1' if obs['failed'] else '0'}
+            if case['via'] == 'direct':
+                impl_fin['total'] = str(obs['total'])
+            for k2, v in impl_fin.items():
+                if fields.get(k2) != v:
+                    return 'collector final state: impl %s / model %s' % (impl_fin, fields)
+            return None
         model = answers[0].split(' ')
         if case['mode'] == 'direct':
             impl = ['%d%s' % (n, t) for (n, t) in obs['points']]
@@ -105,6 +237,44 @@ class C06(Prop):
 
     def oracle(self, case, obs):
         fails = []
+        if case['mode'] == 'collector':
+            L, C, k = case['L'], case['C'], case['k']
+            if obs['result'] == 'no-request-frame':
+                return [{'signature': 'collector:no-request-frame', 'what': 'AwaitableRSocket sent no request frame'}]
+            if obs['initial'] is not None and obs['initial'] != L:
+                fails.append({'signature': 'collector:initial-request-n', 'what': 'limit_rate %d, request frame carries initial request-n %d' % (L, obs['initial'])})
+            bad = [c for c in obs['calls'] if c != 'x' and c != 'r%d' % L]
+            if bad:
+                fails.append({'signature': 'collector:request-n-not-limit-rate', 'what': 'limit_rate %d, REQUEST_N %s' % (L, bad)})
+            # the credit window while unflagged elements arrive and the count limit is not reached: 1 <= L + granted - received <= L
+            upto = k - 1 if case['end'] == 'flag' else k
+            if C is not None:
+                upto = min(upto, C - 1)
+            burst = case.get('burst', 1)
+            nev = len(self._collector_events(case))
+            for i in range(min(upto, len(obs['after']))):
+                if (i + 1) % burst != 0 and i != nev - 1:
+                    continue          # inside a burst delivered in one loop iteration: the wire was not observed at this point
+                granted = L * len([c for c in obs['calls'][:obs['after'][i]] if c != 'x'])
+                out = L + granted - (i + 1)
+                if out > L or out < 1:
+                    fails.append({'signature': 'collector:credit-window', 'what': 'after element %d: initial %d + granted %d - received %d = %d outstanding (limit rate %d)' % (i + 1, L, granted, i + 1, out, L)})
+                    break
+            if C is not None and k >= C and not (case['end'] == 'flag' and k == C):
+                if obs['calls'].count('x') != 1:
+                    fails.append({'signature': 'collector:limit-count-cancel', 'what': 'limit_count %d, %d elements, %d cancels' % (C, k, obs['calls'].count('x'))})
+            if C is None and 'x' in obs['calls']:
+                fails.append({'signature': 'collector:unexpected-cancel', 'what': str(obs['calls'])})
+            terminal = case['end'] in ('flag', 'complete', 'error') or (C is not None and k >= C)
+            if terminal and not obs['done']:
+                fails.append({'signature': 'collector:awaitable-left-pending', 'what': 'the stream ended (%s) and the awaitable is still pending' % case['end']})
+            if not terminal and obs['done']:
+                fails.append({'signature': 'collector:awaitable-resolved-early', 'what': 'the stream has not ended and the awaitable is resolved'})
+            if obs['done'] and case['end'] == 'error' and not (C is not None and k >= C) and obs['result'] != 'raised':
+                fails.append({'signature': 'collector:error-not-raised', 'what': 'the stream failed and the awaitable returned %s' % obs['result']})
+            if obs['done'] and case['end'] in ('flag', 'complete') and C is None and not case.get('extra') and obs['result'] != k:
+                fails.append({'signature': 'collector:elements-lost', 'what': '%d elements received, awaitable returned %s' % (k, obs['result'])})
+            return fails
         if case['mode'] == 'direct':
             k = 0
             for e in obs['events']:
@@ -136,6 +306,8 @@ class C06(Prop):
         return fails
 
     def nontrivial(self, case, obs):
+        if case['mode'] == 'collector':
+            return json.dumps(case, sort_keys=True) if obs['calls'] else None
         if case['mode'] == 'direct':
             if len([s for s in case['steps'] if s[0] == 'r']) >= 2:
                 return json.dumps(case, sort_keys=True)
@@ -149,6 +321,12 @@ class C06(Prop):
             yield 'terminal=' + str(obs['points'][-1][1])
 
     def shrink_candidates(self, case):
+        if case['mode'] == 'collector':
+            if case['k'] > 1:
+                yield dict(case, k=case['k'] - 1)
+            if case.get('extra'):
+                yield dict(case, extra=0)
+            return
         if case['mode'] == 'direct':
             st = case['steps']
             for i in range(len(st) - 1):
